@@ -21,7 +21,7 @@ CHECKS = {
          "refmon",
          "For seeded persisted states (lastScheduled / lastUpdated / notBefore in every order incl. equalities, downtime below/at/above the threshold, all threshold and cap settings) a fresh CronWorker is initialised and ticked, 1-3 restarts per case; the requests must be exactly the due times later than the reference bound, capped, then continue normally; nothing at or before lastScheduled; never-scheduled JobConfigs get nothing before the start. An end-to-end phase crashes and restarts the whole controller set in the simulation (newest scheduled Job deleted, crashes at random API calls) and compares every schedule request of a restarted controller with the highest lastScheduled ever persisted.",
          "restart instants are sampled (sub-second offsets, exact threshold boundaries), not all instants.", "6/C04"),
- "C05": ("exploration", "online monitor on every start write against the true active set, counter-vs-truth at quiescent points, over seeded deterministic schedules of the real queue controller and active-job store with lag, concurrent reconciles, faults and crashes",
+ "C05": ("exploration", "online monitor on every start write against the true active set, counter-vs-truth at quiescent points, over seeded deterministic schedules of the real queue controller and active-job store with lag, watch stalls and relists, concurrent reconciles, faults and crashes; leader-failover runs of the production ControllerManager under the race detector",
          "detsim",
          "At every write that sets status.startTime of a Forbid/Enqueue Job the number of other started, unfinished Jobs of the JobConfig (API truth) must be below maxConcurrency; at every quiescent point and after every restart the in-memory counter must equal the true number of active Jobs (the store's compare-and-add is a scheduling point in half of the cases). Plus a threaded run of the production controllers under the race detector with the same start oracle and counter = truth once quiet, and porcupine linearizability checks of recorded utils/atomic.Counter histories.",
          "timed-out-but-applied start writes are judged under C20 (known finding there).", "6/C05"),
@@ -47,11 +47,11 @@ CHECKS = {
          "externally removed Pods are non-terminal ones (destroyed information is not demanded back).", "6/C10"),
  "C11": ("exploration", "pairwise monitor over every committed Job version (monotonicity, all writers) and coherence monitor on job-controller status writes",
          "detsim",
-         "startTime never changes, finished never reverts, result/finish time stable unless user edit or deletion, createdTasks and task names never shrink, task timestamps never cleared; controller-written versions have exactly one condition, matching state, terminal phase iff finished, counters equal to the list. Plus a threaded run under the race detector with the monotonicity and coherence oracles.",
+         "startTime never changes, finished never reverts, result/finish time stable unless user edit or deletion, createdTasks and task names never shrink, task timestamps never cleared, a task recorded as terminated or lost never goes back; controller-written versions have exactly one condition, matching state, terminal phase iff finished, counters equal to the list. Plus a threaded run under the race detector with the monotonicity and coherence oracles.",
          "", "6/C11"),
  "C12": ("exploration", "online monitor justifying every controller-issued Pod delete (pending timeout / kill / strategy decided / Job deleted / force-delete timeout) on the reconcile's view and the virtual clock; fixpoint oracle after all deadlines",
          "detsim",
-         "Every Pod delete request of the controller must be justified at the clock reading of the commit; force deletes need the timeout and no forbid flag; at the fixpoint killed Jobs are terminal and no never-running task outlives its pending timeout.",
+         "Every Pod delete request of the controller must be justified at the clock reading of the commit; force deletes need the timeout and no forbid flag; at quiescent points after the kill time (and at the end of the run) every alive listed task has been asked to stop whatever the Job's phase, and every listed task that has not begun running past its pending timeout has been asked to stop; at the fixpoint killed Jobs are terminal.",
          "no periodic resync: un-armed deadlines show as stuck Jobs.", "6/C12"),
  "C13": ("exploration", "online monitors at the commit that removes a Job and at every controller-issued Job delete (TTL on the virtual clock); fixpoint oracle for completion of deletion and TTL cleanup",
          "detsim",
@@ -71,7 +71,7 @@ CHECKS = {
          "evaluation of option values is C18's subject; kube-apiserver's own patch application is represented by the same library it uses.", "6/C16"),
  "C17": ("exploration", "runtime monitor: generated near-boundary JobConfigs through the real admission chain, accepted ones pushed through cronschedule.New/Bump, NewJobFromJobConfig, the Job admission chain and NewPod with panic capture; generated one-field update pairs through the real update chain",
          "refmon",
-         "Every JobConfig the chain accepts (under every generated cron dynamic configuration) must load into the cron schedule next to a healthy neighbour, bump, instantiate into a Job that passes the Job chain (with constructed values for required options) and expand into Pods for every index without error or panic; updates changing exactly one immutable field (incl. start policy once started or finished, kill timestamp once passed) must be rejected while control updates pass.",
+         "Every JobConfig the chain accepts (under every generated cron dynamic configuration) must load into the cron schedule next to a healthy neighbour, bump, instantiate into a Job that passes the Job chain (with constructed values for required options) and expand into Pods for every index without error, panic or a call that never returns (decided by CPU time); updates changing exactly one immutable field (incl. start policy once started or finished, kill timestamp once passed) must be rejected while control updates pass.",
          "Kubernetes' PodTemplateSpec validation trusted; accept rate of the generator is reported in the evidence.", "6/C17"),
  "C18": ("exploration", "reference-model monitor: real EvaluateOptions / Mutator.MutateCreateJob / NewPod vs independent evaluator and single-pass substituter; determinism by repeated execution",
          "refmon",
